@@ -45,7 +45,10 @@ Definition no_adict (c : config) : bool :=
 
 (* no directory key is a bare string prefix of the path without being a containing directory *)
 Definition key_clean (d p : string) : bool :=
-  String.eqb d "/" || Bool.eqb (starts_with d p) (starts_with (d ++ "/") p).
+  String.eqb d "/" || Bool.eqb (starts_with d p) (starts_with (rstrip_slash d ++ "/") p).
+(* the key is written without a trailing slash *)
+Definition key_plain (d : string) : bool := String.eqb (rstrip_slash d) d.
+Definition no_trailing_slash (c : config) : bool := forallb (fun dr => key_plain (fst dr)) (dirs_of c).
 Definition no_bare_prefix (c : config) (p : string) : bool := forallb (fun dr => key_clean (fst dr) p) (dirs_of c).
 
 (* the path is handed over absolute or relative to the project root itself *)
@@ -55,6 +58,7 @@ Definition is_none {A} (o : option A) : bool := match o with None => true | Some
 
 Definition adict_ok (q : pquirks) (c : config) : bool := negb (q_allow_dict_unsupported q) || no_adict c.
 Definition prefix_ok (q : pquirks) (c : config) (p : string) : bool := negb (q_prefix_without_separator q) || no_bare_prefix c p.
+Definition depth_ok (q : pquirks) (c : config) : bool := negb (q_trailing_slash_depth q) || no_trailing_slash c.
 Definition cwd_ok (q : pquirks) (f : fileq) : bool := negb (q_path_relative_to_cwd q) || presented_from_root f.
 
 Section Engine.
@@ -69,18 +73,24 @@ Section Engine.
     match spec_rule p (dirs_of c) with None => true | Some _ => is_none (c_gdeny c) && is_none (c_gpat c) end.
 
   (* ================================================================ 1. the directory search *)
-  Definition depthZ (d : string) : Z := if String.eqb d "/" then 0%Z else Z.of_nat (S (count_char "/" d)).
+  Definition depthZ (d : string) : Z :=
+    if String.eqb d "/" then 0%Z else Z.of_nat (S (count_char "/" (rstrip_slash d))).
 
   Lemma check_path_match_contains q d p :
     negb (q_prefix_without_separator q) || key_clean d p = true ->
+    negb (q_trailing_slash_depth q) || key_plain d = true ->
     check_path_match q d p = if contains d p then Some (depthZ d) else None.
   Proof.
-    intros Hq. unfold check_path_match, contains, depthZ, prefix_test.
+    intros Hq Ht.
+    assert (Hd : (if q_trailing_slash_depth q then d else rstrip_slash d) = rstrip_slash d).
+    { destruct (q_trailing_slash_depth q); [|reflexivity]. cbn [negb orb] in Ht. unfold key_plain in Ht.
+      apply String.eqb_eq in Ht. congruence. }
+    unfold check_path_match, contains, depthZ, prefix_test.
     change fp_root_key with "/". change fp_root_key2 with "/". change fp_root_notin with "/".
     change fp_root_depth with 0%Z. change fp_split_sep with "/"%char.
     destruct (String.eqb d "/") eqn:Ed.
     - cbn [andb]. destruct (str_contains "/" p); reflexivity.
-    - rewrite split_on_length.
+    - rewrite Hd, split_on_length.
       destruct (q_prefix_without_separator q) eqn:Eq; [|reflexivity].
       cbn [negb orb] in Hq. unfold key_clean in Hq. rewrite Ed in Hq. cbn [orb] in Hq.
       apply Bool.eqb_prop in Hq. rewrite Hq. reflexivity.
@@ -92,15 +102,15 @@ Section Engine.
   (* among the keys containing one path, deeper = longer *)
   Lemma depth_vs_length b d p :
     contains b p = true -> contains d p = true ->
-    (depthZ b <? depthZ d)%Z = (String.length b <? String.length d).
+    (depthZ b <? depthZ d)%Z = (String.length (rstrip_slash b) <? String.length (rstrip_slash d)).
   Proof.
     unfold contains, depthZ. intros Hb Hd.
     destruct (String.eqb b "/") eqn:Eb; destruct (String.eqb d "/") eqn:Ed.
     - apply String.eqb_eq in Eb. apply String.eqb_eq in Ed. subst. reflexivity.
     - apply starts_with_sep_contains in Hd. rewrite Hd in Hb. discriminate.
     - apply starts_with_sep_contains in Hb. rewrite Hb in Hd. discriminate.
-    - rewrite <- (separators_vs_length b d p Hb Hd).
-      destruct (count_char "/" b <? count_char "/" d) eqn:E.
+    - rewrite <- (separators_vs_length (rstrip_slash b) (rstrip_slash d) p Hb Hd).
+      destruct (count_char "/" (rstrip_slash b) <? count_char "/" (rstrip_slash d)) eqn:E.
       + apply Nat.ltb_lt in E. apply Z.ltb_lt. lia.
       + apply Nat.ltb_ge in E. apply Z.ltb_ge. lia.
   Qed.
@@ -113,31 +123,37 @@ Section Engine.
 
   Lemma find_loop_spec q p dirs : forall best bd,
     forallb (fun dr => negb (q_prefix_without_separator q) || key_clean (fst dr) p) dirs = true ->
+    forallb (fun dr => negb (q_trailing_slash_depth q) || key_plain (fst dr)) dirs = true ->
     loop_inv p best bd ->
     find_loop q p dirs best bd = spec_rule_loop p dirs best.
   Proof.
-    induction dirs as [|[d r] rest IH]; intros best bd Hk Hinv; [reflexivity|].
+    induction dirs as [|[d r] rest IH]; intros best bd Hk Ht Hinv; [reflexivity|].
     cbn [forallb fst] in Hk. apply andb_true_iff in Hk. destruct Hk as [Hk1 Hk2].
-    cbn [find_loop spec_rule_loop]. rewrite (check_path_match_contains q d p Hk1).
+    cbn [forallb fst] in Ht. apply andb_true_iff in Ht. destruct Ht as [Ht1 Ht2].
+    cbn [find_loop spec_rule_loop]. rewrite (check_path_match_contains q d p Hk1 Ht1).
     destruct (contains d p) eqn:Ec; [|apply IH; assumption].
     change fp_best_cmp with CGt. cbn [cmp_Z].
     destruct best as [[b rb]|]; cbn [loop_inv] in Hinv.
     - destruct Hinv as [-> Hb]. rewrite (depth_vs_length b d p Hb Ec).
-      destruct (String.length b <? String.length d).
-      + apply IH; [exact Hk2|]. cbn [loop_inv]. split; [reflexivity|exact Ec].
-      + apply IH; [exact Hk2|]. cbn [loop_inv]. split; [reflexivity|exact Hb].
+      destruct (String.length (rstrip_slash b) <? String.length (rstrip_slash d)).
+      + apply IH; [exact Hk2|exact Ht2|]. cbn [loop_inv]. split; [reflexivity|exact Ec].
+      + apply IH; [exact Hk2|exact Ht2|]. cbn [loop_inv]. split; [reflexivity|exact Hb].
     - subst bd. pose proof (depthZ_nonneg d) as Hn.
       assert (E : (-1 <? depthZ d)%Z = true) by (apply Z.ltb_lt; lia). rewrite E.
-      apply IH; [exact Hk2|]. cbn [loop_inv]. split; [reflexivity|exact Ec].
+      apply IH; [exact Hk2|exact Ht2|]. cbn [loop_inv]. split; [reflexivity|exact Ec].
   Qed.
 
   Lemma find_matching_rule_spec q c p :
-    prefix_ok q c p = true -> find_matching_rule q p (dirs_of c) = spec_rule p (dirs_of c).
+    prefix_ok q c p = true -> depth_ok q c = true ->
+    find_matching_rule q p (dirs_of c) = spec_rule p (dirs_of c).
   Proof.
-    intros H. unfold find_matching_rule, spec_rule. apply find_loop_spec.
+    intros H Ht. unfold find_matching_rule, spec_rule. apply find_loop_spec.
     - unfold prefix_ok, no_bare_prefix in H. destruct (q_prefix_without_separator q); cbn [negb orb] in *.
       + exact H.
-      + clear H. induction (dirs_of c) as [|x l IHl]; [reflexivity|]. cbn [forallb]. exact IHl.
+      + clear H Ht. induction (dirs_of c) as [|x l IHl]; [reflexivity|]. cbn [forallb]. exact IHl.
+    - unfold depth_ok, no_trailing_slash in Ht. destruct (q_trailing_slash_depth q); cbn [negb orb] in *.
+      + exact Ht.
+      + clear H Ht. induction (dirs_of c) as [|x l IHl]; [reflexivity|]. cbn [forallb]. exact IHl.
     - reflexivity.
   Qed.
 
@@ -150,7 +166,7 @@ Section Engine.
     - left. exact H.
     - destruct (contains d0 p) eqn:Ec.
       + destruct best as [[b rb]|].
-        * destruct (String.length b <? String.length d0).
+        * destruct (String.length (rstrip_slash b) <? String.length (rstrip_slash d0)).
           -- destruct (IH _ _ _ H) as [E|[Hin Hc]].
              ++ inversion E; subst. right. split; [left; reflexivity|exact Ec].
              ++ right. split; [right; exact Hin|exact Hc].
@@ -166,14 +182,15 @@ Section Engine.
 
   Lemma spec_rule_loop_longest p dirs : forall best d r,
     spec_rule_loop p dirs best = Some (d, r) ->
-    (forall b rb, best = Some (b, rb) -> String.length b <= String.length d) /\
-    (forall d' r', In (d', r') dirs -> contains d' p = true -> String.length d' <= String.length d).
+    (forall b rb, best = Some (b, rb) -> String.length (rstrip_slash b) <= String.length (rstrip_slash d)) /\
+    (forall d' r', In (d', r') dirs -> contains d' p = true ->
+                   String.length (rstrip_slash d') <= String.length (rstrip_slash d)).
   Proof.
     induction dirs as [|[d0 r0] rest IH]; intros best d r H; cbn [spec_rule_loop] in H.
     - subst best. split; [intros b rb E; inversion E; lia|intros d' r' []].
     - destruct (contains d0 p) eqn:Ec.
       + destruct best as [[b rb]|].
-        * destruct (String.length b <? String.length d0) eqn:El.
+        * destruct (String.length (rstrip_slash b) <? String.length (rstrip_slash d0)) eqn:El.
           -- destruct (IH _ _ _ H) as [Hb Hr]. specialize (Hb d0 r0 eq_refl). apply Nat.ltb_lt in El. split.
              ++ intros b' rb' E. inversion E; subst. lia.
              ++ intros d' r' [E|Hin] Hc; [inversion E; subst; exact Hb|exact (Hr d' r' Hin Hc)].
@@ -194,7 +211,7 @@ Section Engine.
     - split; [intros ->; split; [reflexivity|intros d r []]|intros [E _]; exact E].
     - destruct (contains d0 p) eqn:Ec.
       + split.
-        * intros H. exfalso. destruct best as [[b rb]|]; [destruct (String.length b <? String.length d0)|];
+        * intros H. exfalso. destruct best as [[b rb]|]; [destruct (String.length (rstrip_slash b) <? String.length (rstrip_slash d0))|];
             apply IH in H; destruct H as [E _]; discriminate.
         * intros [-> H]. specialize (H d0 r0 (or_introl eq_refl)). congruence.
       + rewrite IH. split; intros [E H]; (split; [exact E|]).
@@ -207,7 +224,8 @@ Section Engine.
   Theorem spec_rule_most_specific p dirs d r :
     spec_rule p dirs = Some (d, r) ->
     In (d, r) dirs /\ contains d p = true /\
-    forall d' r', In (d', r') dirs -> contains d' p = true -> d' = d \/ starts_with (d' ++ "/") d = true.
+    forall d' r', In (d', r') dirs -> contains d' p = true ->
+                  rstrip_slash d' = rstrip_slash d \/ starts_with (rstrip_slash d' ++ "/") (rstrip_slash d) = true.
   Proof.
     intros H. destruct (spec_rule_In p dirs d r H) as [Hin Hc]. split; [exact Hin|]. split; [exact Hc|].
     intros d' r' Hin' Hc'.
@@ -218,8 +236,8 @@ Section Engine.
     - apply starts_with_sep_contains in Hc'. rewrite Hc' in Hc. discriminate.
     - apply starts_with_sep_contains in Hc. rewrite Hc in Hc'. discriminate.
     - apply Nat.le_lteq in Hlen. destruct Hlen as [Hlt|Heq].
-      + right. exact (shorter_key_is_ancestor d' d p Hc' Hc Hlt).
-      + left. exact (same_length_same_key d' d p Hc' Hc Heq).
+      + right. exact (shorter_key_is_ancestor _ _ p Hc' Hc Hlt).
+      + left. exact (same_length_same_key _ _ p Hc' Hc Heq).
   Qed.
 
   (* containment is directory containment: the path's components are the key's components followed by at
@@ -227,7 +245,7 @@ Section Engine.
   Theorem contains_components d p :
     contains d p = true ->
     if String.eqb d "/" then List.length (split_on "/" p) = 1
-    else exists rest, rest <> [] /\ split_on "/" p = split_on "/" d ++ rest.
+    else exists rest, rest <> [] /\ split_on "/" p = split_on "/" (rstrip_slash d) ++ rest.
   Proof.
     unfold contains. destruct (String.eqb d "/"); intros H.
     - rewrite split_on_length. f_equal. apply negb_true_iff in H.
@@ -310,12 +328,12 @@ Section Engine.
 
   (* ================================================================ 3. check_all_rules *)
   Lemma check_all_spec q c p :
-    cfg_ok c = true -> prefix_ok q c p = true -> globals_ok q c p = true ->
+    cfg_ok c = true -> prefix_ok q c p = true -> depth_ok q c = true -> globals_ok q c p = true ->
     check_all matches q p c = spec_report matches c p.
   Proof.
-    intros Hok Hp Hg. unfold check_all. change fp_checker_keys with ["directories"; "global_deny"; "global_patterns"].
+    intros Hok Hp Ht Hg. unfold check_all. change fp_checker_keys with ["directories"; "global_deny"; "global_patterns"].
     cbn [flat_map]. unfold part_by. cbn [String.eqb Ascii.eqb Bool.eqb andb]. rewrite app_nil_r.
-    unfold covered, dir_part. rewrite (find_matching_rule_spec q c p Hp). unfold spec_report.
+    unfold covered, dir_part. rewrite (find_matching_rule_spec q c p Hp Ht). unfold spec_report.
     destruct (spec_rule p (dirs_of c)) as [[d r]|] eqn:Es.
     - destruct (spec_rule_In p (dirs_of c) d r Es) as [Hin _].
       assert (Hd : String.eqb d "" = false).
@@ -445,10 +463,10 @@ Section Engine.
   Theorem run_spec_general q c f :
     cfg_ok c = true ->
     adict_ok q c = true -> cwd_ok q f = true ->
-    prefix_ok q c (relpath f) = true -> globals_ok q c (relpath f) = true ->
+    prefix_ok q c (relpath f) = true -> depth_ok q c = true -> globals_ok q c (relpath f) = true ->
     forget (run valid matches q c f) = spec valid matches c f.
   Proof.
-    intros Hok Ha Hc Hp Hg. unfold run, spec. rewrite (validate_first_invalid q c Ha), <- forallb_validation_order.
+    intros Hok Ha Hc Hp Ht Hg. unfold run, spec. rewrite (validate_first_invalid q c Ha), <- forallb_validation_order.
     destruct (first_invalid_cases (patterns_in_validation_order c)) as [[E1 E2]|[p [E1 [_ [_ E4]]]]].
     - rewrite E1, E2. cbn [forget]. rewrite (eff_path_relpath q f Hc). f_equal. apply check_all_spec; assumption.
     - rewrite E1, E4. reflexivity.
@@ -458,23 +476,26 @@ Section Engine.
      non-empty directory keys, every file and every regex engine *)
   Theorem run_exact q c f :
     q_global_on_covered q = false -> q_prefix_without_separator q = false ->
-    q_path_relative_to_cwd q = false -> q_allow_dict_unsupported q = false ->
+    q_path_relative_to_cwd q = false -> q_allow_dict_unsupported q = false -> q_trailing_slash_depth q = false ->
     cfg_ok c = true ->
     forget (run valid matches q c f) = spec valid matches c f.
   Proof.
-    intros H1 H2 H3 H4 Hok. apply run_spec_general; [exact Hok| | | |].
+    intros H1 H2 H3 H4 H5 Hok. apply run_spec_general; [exact Hok| | | | |].
     - unfold adict_ok. now rewrite H4.
     - unfold cwd_ok. now rewrite H3.
     - unfold prefix_ok. now rewrite H2.
+    - unfold depth_ok. now rewrite H5.
     - unfold globals_ok. now rewrite H1.
   Qed.
 
   Theorem report_exact q c p :
-    q_global_on_covered q = false -> q_prefix_without_separator q = false -> cfg_ok c = true ->
+    q_global_on_covered q = false -> q_prefix_without_separator q = false -> q_trailing_slash_depth q = false ->
+    cfg_ok c = true ->
     check_all matches q p c = spec_report matches c p.
   Proof.
-    intros H1 H2 Hok. apply check_all_spec; [exact Hok| |].
+    intros H1 H2 H5 Hok. apply check_all_spec; [exact Hok| | |].
     - unfold prefix_ok. now rewrite H2.
+    - unfold depth_ok. now rewrite H5.
     - unfold globals_ok. now rewrite H1.
   Qed.
 
@@ -482,13 +503,15 @@ Section Engine.
   Theorem run_exact_outside_defects q c f :
     cfg_ok c = true ->
     no_adict c = true -> presented_from_root f = true -> no_bare_prefix c (relpath f) = true ->
+    no_trailing_slash c = true ->
     (spec_rule (relpath f) (dirs_of c) = None \/ (c_gdeny c = None /\ c_gpat c = None)) ->
     forget (run valid matches q c f) = spec valid matches c f.
   Proof.
-    intros Hok Ha Hc Hp Hg. apply run_spec_general; [exact Hok| | | |].
+    intros Hok Ha Hc Hp Ht Hg. apply run_spec_general; [exact Hok| | | | |].
     - unfold adict_ok. rewrite Ha. apply orb_true_r.
     - unfold cwd_ok. rewrite Hc. apply orb_true_r.
     - unfold prefix_ok. rewrite Hp. apply orb_true_r.
+    - unfold depth_ok. rewrite Ht. apply orb_true_r.
     - unfold globals_ok. destruct Hg as [E|[E1 E2]].
       + rewrite E. apply orb_true_r.
       + rewrite E1, E2. destruct (spec_rule (relpath f) (dirs_of c)); apply orb_true_r.
@@ -532,17 +555,19 @@ Section Engine.
 
   (* deny takes precedence over allow: a matching deny pattern decides, whatever the allow list says *)
   Theorem deny_precedence q c p d r i :
-    q_global_on_covered q = false -> q_prefix_without_separator q = false -> cfg_ok c = true ->
+    q_global_on_covered q = false -> q_prefix_without_separator q = false -> q_trailing_slash_depth q = false ->
+    cfg_ok c = true ->
     spec_rule p (dirs_of c) = Some (d, r) -> spec_denied matches p (r_deny r) = Some i ->
     check_all matches q p c = [(p, 1, 0, spec_dir_deny_msg p d (spec_reason i))].
   Proof.
-    intros H1 H2 Hok Hs Hd. rewrite (report_exact q c p H1 H2 Hok). unfold spec_report. rewrite Hs.
+    intros H1 H2 H5 Hok Hs Hd. rewrite (report_exact q c p H1 H2 H5 Hok). unfold spec_report. rewrite Hs.
     unfold spec_judge. rewrite Hd. reflexivity.
   Qed.
 
   (* files satisfying all applicable rules are never reported *)
   Theorem satisfying_not_reported q c p :
-    q_global_on_covered q = false -> q_prefix_without_separator q = false -> cfg_ok c = true ->
+    q_global_on_covered q = false -> q_prefix_without_separator q = false -> q_trailing_slash_depth q = false ->
+    cfg_ok c = true ->
     match spec_rule p (dirs_of c) with
     | Some (_, r) => violates p r
     | None => (match c_gdeny c with Some l => violates p (Build_drule None (Some l)) | None => false end)
@@ -550,7 +575,7 @@ Section Engine.
     end = false ->
     check_all matches q p c = [].
   Proof.
-    intros H1 H2 Hok Hv. rewrite (report_exact q c p H1 H2 Hok). rewrite <- verdict_iff in Hv.
+    intros H1 H2 H5 Hok Hv. rewrite (report_exact q c p H1 H2 H5 Hok). rewrite <- verdict_iff in Hv.
     destruct (spec_report matches c p); [reflexivity|discriminate].
   Qed.
 
@@ -566,11 +591,12 @@ Section Engine.
   (* the verdict depends only on the path relative to the project root *)
   Theorem verdict_depends_on_relpath_only q c f1 f2 :
     q_global_on_covered q = false -> q_prefix_without_separator q = false ->
-    q_path_relative_to_cwd q = false -> q_allow_dict_unsupported q = false -> cfg_ok c = true ->
+    q_path_relative_to_cwd q = false -> q_allow_dict_unsupported q = false -> q_trailing_slash_depth q = false ->
+    cfg_ok c = true ->
     relpath f1 = relpath f2 ->
     forget (run valid matches q c f1) = forget (run valid matches q c f2).
   Proof.
-    intros H1 H2 H3 H4 Hok E. rewrite !run_exact by assumption. unfold spec. rewrite E. reflexivity.
+    intros H1 H2 H3 H4 H5 Hok E. rewrite !run_exact by assumption. unfold spec. rewrite E. reflexivity.
   Qed.
 
   (* a syntactically invalid pattern anywhere in the configuration is rejected, naming an invalid pattern;
